@@ -89,7 +89,7 @@ func RunShards(p *Prop, pc *ParentCtx, extraEnv []string) *Aggregate {
 		}
 	}
 
-	outs := make([]childOutcome, NShards, NShards+len(shards386))
+	outs := make([]childOutcome, NShards, NShards+len(shards386)+512)
 	sem := make(chan struct{}, max(1, runtime.NumCPU()))
 
 	var wg sync.WaitGroup
@@ -121,6 +121,42 @@ func RunShards(p *Prop, pc *ParentCtx, extraEnv []string) *Aggregate {
 			sub.Exe = os.Getenv("VMON_EXE_386")
 			outs[slot] = runChildEnv(p, &sub, i, nil, ".386")
 		}(i, slot)
+	}
+
+	// extra processes that do nothing but the cold start (first use of the library in a fresh process, concurrently):
+	// first-use races are a property of a process, so the sample size is the number of processes
+	coldSem := make(chan struct{}, 2)
+
+	if p.ColdStart != nil && extraEnv == nil {
+		// wait for the ordinary shards first
+		wg.Wait()
+
+		nCold := 120
+		if pc.Tier == "thorough" {
+			nCold = 1200
+		}
+
+		for j := 0; j < nCold; j++ {
+			wg.Add(1)
+
+			outs = append(outs, childOutcome{})
+			slot := len(outs) - 1
+
+			go func(j, slot int) {
+				defer wg.Done()
+				// only two of these at a time, and after the ordinary shards: each process should have the cores to
+				// itself, otherwise its goroutines are serialised and nothing overlaps at the instant of first use
+				coldSem <- struct{}{}
+				defer func() { <-coldSem }()
+
+				env := []string{"VMON_COLD_ONLY=1"}
+				if j%6 == 5 {
+					env = append(env, "GOMAXPROCS=4")
+				}
+
+				outs[slot] = runChildEnv(p, pc, 1000+j, env, ".cold")
+			}(j, slot)
+		}
 	}
 
 	wg.Wait()
@@ -523,7 +559,12 @@ func writeEvidence(p *Prop, pc *ParentCtx, agg *Aggregate, unlisted int, wall fl
 func ShardMain(p *Prop, tier string, seed uint64, shard int, out string) int {
 	c := NewCtx(p, tier, seed, shard)
 
-	if err := oracle.SelfTest(); err != nil {
+	var stErr error
+	if os.Getenv("VMON_COLD_ONLY") == "" {
+		stErr = oracle.SelfTest() // (the parent has run it too; cold-start-only children skip it to stay short)
+	}
+
+	if err := stErr; err != nil {
 		c.Inconclusive("oracle self-test failed in child: " + err.Error())
 	} else {
 		func() {
@@ -534,6 +575,16 @@ func ShardMain(p *Prop, tier string, seed uint64, shard int, out string) int {
 					c.Inconclusive(fmt.Sprintf("harness failure outside a monitored call: %v\n%s", r, firstLines(string(debug.Stack()), 30)))
 				}
 			}()
+
+			if p.ColdStart != nil {
+				c.cur = map[string]any{"phase": "cold start of shard process", "shard": shard}
+				p.ColdStart(c)
+				c.Res.Counters["cold-starts"]++
+			}
+
+			if os.Getenv("VMON_COLD_ONLY") != "" {
+				return
+			}
 
 			p.Generate(c)
 
